@@ -206,7 +206,7 @@ def jobs(tier, seed):
     js = []
     for wait_on in ('timeout', 'event', 'child'):
         for handler in ('finish', 'rewait', 'other', 'raise'):
-            for intr in ([1], [2], [1, 1]) if tier == 'quick' else ([1], [2], [3], [1, 1], [2, 1], [2, 2], [1, 1, 1]):
+            for intr in ([1], [2], [1, 1]) if tier == 'quick' else ([1], [2], [3], [1, 1], [2, 1], [1, 1, 1]):
                 for cow in (False, True):
                     if tier == 'quick' and cow and handler in ('raise',):
                         continue
